@@ -76,6 +76,35 @@ def programs(rng, tier):
         names = [rng.choice(unsafe) if rng.random() < 0.5 else X.rand_name(rng) for _ in range(3)]
         e = X.rand_tree(rng, rng.choice([0, 1, 2, 3]), names, pconst=0.05)
         P.add_prog([["e", "show", e], ["p", "parse", "$e"]])
+    # regrouping storms: ONE sequence of names and operators parsed several times inside one program (one worker thread) under
+    # DIFFERENT parenthesisations, and once more with one name or one operator exchanged: a parser that remembers parsed groups
+    # under a key built from the tokens without the brackets (or without the names) returns the earlier grouping
+    def bracket(items, ops):
+        if len(items) == 1:
+            return items[0]
+        k = rng.randrange(1, len(items))
+        return "(%s %s %s)" % (bracket(items[:k], ops[:k - 1]), ops[k - 1], bracket(items[k:], ops[k:]))
+    for _ in range(150 if tier == "quick" else 3000):
+        n = rng.choice([3, 3, 4, 5, 6])
+        items = [rng.choice("abcdefg") if rng.random() < 0.8 else "!" + rng.choice("abc") for _ in range(n)]
+        ops = [rng.choice(["&", "|", "^", "=>", "<=>"]) for _ in range(n - 1)]
+        prog, seen = [], set()
+        for k in range(rng.choice([3, 4, 5])):
+            it, op = list(items), list(ops)
+            if k and rng.random() < 0.3:
+                if rng.random() < 0.5:
+                    it[rng.randrange(n)] = rng.choice("abcdefg")
+                else:
+                    op[rng.randrange(n - 1)] = rng.choice(["&", "|", "^", "=>", "<=>"])
+            s = bracket(it, op)
+            if rng.random() < 0.5:
+                s = s[1:-1]          # the outermost pair is optional
+            if rng.random() < 0.3:
+                s = "%s %s (%s)" % (rng.choice("xyz"), rng.choice(["&", "|"]), s)
+            if s not in seen:
+                seen.add(s)
+                prog.append(["g%d" % len(prog), "parse", hexs(s)])
+        P.add_prog(prog)
     return P.progs
 
 
